@@ -143,6 +143,7 @@ class Proto:
 
 def walk_fields(proto, fields, ctx, out):
     for f in fields:
+        f._container = fields      # the declaration list the field lives in (a match key is looked up there)
         out.append((f, ctx))
         if f.kind == 'inline':
             walk_fields(proto, f.fields, ctx + ('inline',), out)
@@ -227,7 +228,7 @@ def features(proto):
                 if f.packet == p.name:
                     A.add('self-ref')
             if k == 'match':
-                keyf = next(x for x in p.fields if x.name == f.key)
+                keyf = next(x for x in f._container if x.name == f.key)
                 ke = proto.eff(keyf)
                 kt = ke.ntype if ke.kind == 'num' else ke.kind
                 A.add('key:' + kt)
@@ -244,13 +245,13 @@ def features(proto):
                     A.add('key-meta')
             if k == 'len':
                 A.add('len:' + e.ntype)
-                tgt = next(x for x in p.fields if x.name == f.target)
+                tgt = next(x for x in f._container if x.name == f.target)
                 A.add('len-target:' + tgt.kind)
                 A.add('len-spell:' + ('prefixed' if f.prefixed else 'inline'))
                 if not f.typed:
                     A.add('len-meta')
-                li = p.fields.index(f)
-                ti = p.fields.index(tgt)
+                li = f._container.index(f)
+                ti = f._container.index(tgt)
                 A.add('len-gap:%d' % min(ti - li - 1, 3))
             if k == 'cksum':
                 A.add('ck:' + e.ntype)
@@ -259,7 +260,7 @@ def features(proto):
                 if not f.typed:
                     A.add('ck-meta')
                 A.add('ck-in:' + ctx[0])
-                if p.fields and p.fields[-1] is not f:
+                if f._container and f._container[-1] is not f:
                     A.add('ck-mid')
             if f.doc:
                 A.add('doc')
@@ -320,6 +321,7 @@ def features(proto):
                     collect(f.fields, depth + 1)
                 elif f.kind == 'match':
                     names.append(f.name)
+                    names.append('pkt:' + f.pairs[0][1])      # Java names the payload sample after the packet
                     try:
                         collect(proto.packet(f.pairs[0][1]).fields, depth + 1)
                     except KeyError:
